@@ -211,6 +211,79 @@ fn run_zst(n: usize, script: &[String]) -> (String, String) {
     (format!("{} len={} tdrops={} udrops={} calls={}", kind, len, td, ud, calls), format!("{} len={} tdrops={} udrops={} calls={}", pk, plen, n, produced, pcalls))
 }
 
+// ---- element types without drop glue on the input side (a cleanup gated on `needs_drop::<T>()` would leak the outputs) ----
+#[repr(C)]
+struct TPod { id: u32, ver: u32 }     // size 8 align 4, no Drop
+struct UGlue { _id: u32, _ver: u32 }  // size 8 align 4, Drop counted
+impl Drop for UGlue { fn drop(&mut self) { L.with(|l| l.borrow_mut().zst_u_drops += 1); } }
+
+/// plain-data inputs converted to owning outputs: every output ever produced is dropped exactly once (by the cleanup on a
+/// failure, by the caller on success); prediction straight from the script (codes t, r count as c; p3 as p2)
+fn run_pod(n: usize, script: &[String]) -> (String, String) {
+    L.with(|l| { *l.borrow_mut() = Ledger { script: script.to_vec(), ..Default::default() }; });
+    let v: Vec<TPod> = (0..n).map(|i| TPod { id: i as u32, ver: 0 }).collect();
+    let res = std::panic::catch_unwind(std::panic::AssertUnwindSafe(|| {
+        try_convert_vec_in_place::<TPod, UGlue, _, ErrVal>(v, |t: TPod, _prev: Option<&mut UGlue>| {
+            let (k, code) = L.with(|l| { let mut l = l.borrow_mut(); let k = l.call; l.call += 1; (k, l.script.get(k).cloned().unwrap_or("c".into())) });
+            match code.as_str() {
+                "c" | "t" | "r" => Ok(VecElementConversionResult::Converted(UGlue { _id: t.id, _ver: t.ver })),
+                "a" => Ok(VecElementConversionResult::Abandonned),
+                "e" => Err(ErrVal(3000 + k)),
+                _ => std::panic::panic_any(Payload(4000 + k)),
+            }
+        })
+    }));
+    let (kind, len) = match res { Ok(Ok(out)) => { let l = out.len(); drop(out); ("done", l) } Ok(Err(_)) => ("err", 0), Err(_) => ("panic", 0) };
+    let (ud, calls) = L.with(|l| { let l = l.borrow(); (l.zst_u_drops, l.call) });
+    let mut produced = 0; let mut pk = "done"; let mut pcalls = 0;
+    for (k, c) in script.iter().enumerate().take(n) {
+        pcalls = k + 1;
+        match c.as_str() { "c" | "t" | "r" => produced += 1, "a" => {}, "e" => { pk = "err"; break; } _ => { pk = "panic"; break; } }
+    }
+    if n == 0 { pcalls = 0; }
+    let plen = if pk == "done" { produced } else { 0 };
+    (format!("{} len={} udrops={} calls={}", kind, len, ud, calls), format!("{} len={} udrops={} calls={}", pk, plen, produced, pcalls))
+}
+
+// ---- refusal of zero-size element types (C10): size 0 on both sides but different alignment; zero vs non-zero size ----
+trait Mk { fn mk() -> Self; }
+macro_rules! cnt { ($name:ident, $body:tt, $mk:expr, $($attr:tt)*) => {
+    $($attr)* struct $name $body
+    impl Mk for $name { fn mk() -> Self { $mk } }
+    impl Drop for $name { fn drop(&mut self) { L.with(|l| l.borrow_mut().zst_t_drops += 1); } }
+} }
+cnt!(Z1, ;, Z1, #[repr(C)]);
+cnt!(Z4, ;, Z4, #[repr(C, align(4))]);
+cnt!(Z8, ;, Z8, #[repr(C, align(8))]);
+#[repr(C)] struct S4(u32);
+impl Mk for S4 { fn mk() -> Self { S4(7) } }
+impl Drop for S4 { fn drop(&mut self) { L.with(|l| l.borrow_mut().zst_t_drops += 1); } }
+
+fn run_refuse<T: Mk, U: Mk>(n: usize) -> (String, String) {
+    L.with(|l| { *l.borrow_mut() = Ledger::default(); });
+    let v: Vec<T> = (0..n).map(|_| T::mk()).collect();
+    let res = std::panic::catch_unwind(std::panic::AssertUnwindSafe(|| {
+        try_convert_vec_in_place::<T, U, _, ErrVal>(v, |t: T, _prev: Option<&mut U>| {
+            L.with(|l| l.borrow_mut().call += 1);
+            std::mem::forget(t);
+            Ok(VecElementConversionResult::Converted(U::mk()))
+        })
+    }));
+    let kind = match res { Ok(Ok(out)) => { std::mem::forget(out); "accepted" } Ok(Err(_)) => "err", Err(_) => "refused" };
+    let (td, calls) = L.with(|l| { let l = l.borrow(); (l.zst_t_drops, l.call) });
+    (format!("{} calls={} tdrops={}", kind, calls, td), format!("refused calls=0 tdrops={}", n))
+}
+
+fn refusals(n: usize, zst: &mut dyn Write) {
+    let cases: Vec<(&str, (String, String))> = vec![
+        ("Z1->Z8", run_refuse::<Z1, Z8>(n)), ("Z8->Z1", run_refuse::<Z8, Z1>(n)), ("Z4->Z8", run_refuse::<Z4, Z8>(n)), ("Z8->Z4", run_refuse::<Z8, Z4>(n)),
+        ("Z4->S4", run_refuse::<Z4, S4>(n)), ("S4->Z4", run_refuse::<S4, Z4>(n)), ("Z1->S4", run_refuse::<Z1, S4>(n)),
+    ];
+    for (name, (a, b)) in cases {
+        writeln!(zst, "refuse {} n={} | {} | {}", name, n, a, b).unwrap();
+    }
+}
+
 const CODES: [&str; 8] = ["c", "t", "r", "a", "e", "p1", "p2", "p3"];
 
 fn dispatch(pair: &str, n: usize, script: &[String]) -> (String, String) {
@@ -276,10 +349,15 @@ fn main() {
                     let (a, b) = run_zst(n, &script);
                     writeln!(zst, "{} | {} | {}", script.join(" "), a, b).unwrap();
                 }
+                if idx % 16 == 3 || n <= 3 {
+                    let (a, b) = run_pod(n, &script);
+                    writeln!(zst, "pod {} | {} | {}", script.join(" "), a, b).unwrap();
+                }
             }
         }
         // refusal matrix, every length 0..=maxlen
         for n in 0..=maxlen + 3 {
+            refusals(n, &mut zst);
             for pair in ["ne-size", "ne-align", "ne-both", "ne-heap", "ne-align-down", "ne-align-down2", "ne-size-down"] {
                 let script: Vec<String> = (0..n).map(|_| "c".to_string()).collect();
                 emit(pair, n, &script, &mut req, &mut imp);
@@ -318,6 +396,11 @@ fn main() {
                 let (a, b) = run_zst(n, &script);
                 writeln!(zst, "{} | {} | {}", script.join(" "), a, b).unwrap();
             }
+            if i % 10 == 5 {
+                let (a, b) = run_pod(n, &script);
+                writeln!(zst, "pod {} | {} | {}", script.join(" "), a, b).unwrap();
+            }
+            if i % 500 == 7 { refusals(n % 9, &mut zst); }
         }
     }
     req.flush().unwrap(); imp.flush().unwrap(); zst.flush().unwrap();
